@@ -161,6 +161,7 @@ func runInput(id, src string, full bool, r *rand.Rand) obs {
 // ---------------------------------------------------------------- worker
 
 func worker() {
+	hs.Guard(24*time.Hour, 3<<30) // memory only: time is the parent's watchdog
 	in := bufio.NewReaderSize(os.Stdin, 1<<20)
 	out := bufio.NewWriterSize(os.Stdout, 1<<20)
 	for {
@@ -313,21 +314,21 @@ func b2i(b bool) int {
 // ---------------------------------------------------------------- scale
 
 type scaleObs struct {
-	Family string  `json:"family"`
-	Closed bool    `json:"closed"`
-	Lang   string  `json:"lang"`
-	Entry  string  `json:"entry"`
-	Sizes  []int   `json:"sizes"` // input lengths
-	Steps  []int64 `json:"steps"`
-	Ns     []int64 `json:"ns"`
-	Panic  string  `json:"panic,omitempty"`
+	Family  string  `json:"family"`
+	Closed  bool    `json:"closed"`
+	Lang    string  `json:"lang"`
+	Entry   string  `json:"entry"`
+	Sizes   []int   `json:"sizes"` // input lengths
+	Steps   []int64 `json:"steps"`
+	Ns      []int64 `json:"ns"`
+	Panic   string  `json:"panic,omitempty"`
+	Hang    string  `json:"hang,omitempty"`
+	Crash   string  `json:"crash,omitempty"`
+	WithErr bool    `json:"with_err,omitempty"` // the post-processing panic happened on a node returned together with an error
 }
 
+// scale: every family runs in its own child process under a watchdog (a non-advancing loop must not hang the check).
 func scale(o hx.Opts) {
-	base := 250
-	if o.Tier == "thorough" {
-		base = 1500
-	}
 	r := hx.Rand(o.Seed, 620)
 	for fi, p := range hs.NestPairs {
 		if o.Tier != "thorough" && uint64(fi)%3 != o.Seed%3 {
@@ -342,38 +343,74 @@ func scale(o hx.Opts) {
 			if r.IntN(4) == 0 {
 				entry = hx.Pick(r, hs.Entries)
 			}
-			so := scaleObs{Family: p.Open + "…" + p.Close, Closed: closed, Lang: lang.String(), Entry: entry}
-			for _, mult := range []int{1, 2, 4, 8} {
-				src := hs.Nest(p, base*mult, closed)
-				best := int64(1 << 62)
-				var st int64
-				for rep := 0; rep < 2; rep++ {
-					pr := hs.Cfg{Lang: lang, Keep: true}.New()
-					syntax.VerifCountersReset()
-					t0 := time.Now()
-					res := hs.Call(pr, entry, src)
-					if d := time.Since(t0).Nanoseconds(); d < best {
-						best = d
-					}
-					st = steps()
-					if res.Panic != "" {
-						so.Panic = res.Panic
-					}
-					if rep == 0 && res.Panic == "" {
-						for _, n := range res.Nodes {
-							if pm := hs.Post(n); len(pm) > 0 {
-								so.Panic = pm[0]
-							}
-						}
-					}
-				}
-				so.Sizes = append(so.Sizes, len(src))
-				so.Steps = append(so.Steps, st)
-				so.Ns = append(so.Ns, best)
+			cmd := exec.Command(os.Args[0], "scale1", "-tier", o.Tier, fmt.Sprint(fi), fmt.Sprint(closed), lang.String(), entry)
+			var outb strings.Builder
+			cmd.Stdout = &outb
+			if err := cmd.Start(); err != nil {
+				panic(err)
 			}
-			hx.Emit(so)
+			done := make(chan error, 1)
+			go func() { done <- cmd.Wait() }()
+			select {
+			case err := <-done:
+				line := strings.TrimSpace(outb.String())
+				if err != nil || !strings.HasPrefix(line, "{") {
+					hx.Emit(scaleObs{Family: p.Open + "…" + p.Close, Closed: closed, Lang: lang.String(), Entry: entry, Crash: "child died: " + fmt.Sprint(err)})
+				} else {
+					hx.Emit(json.RawMessage(line))
+				}
+			case <-time.After(120 * time.Second):
+				cmd.Process.Kill()
+				<-done
+				hx.Emit(scaleObs{Family: p.Open + "…" + p.Close, Closed: closed, Lang: lang.String(), Entry: entry, Hang: "no answer within 120s"})
+			}
 		}
 	}
+}
+
+func scale1(o hx.Opts) {
+	hs.Guard(24*time.Hour, 4<<30)
+	base := 250
+	if o.Tier == "thorough" {
+		base = 1500
+	}
+	var fi int
+	fmt.Sscan(o.Args[0], &fi)
+	closed := o.Args[1] == "true"
+	lang := hs.LangByName(o.Args[2])
+	entry := o.Args[3]
+	p := hs.NestPairs[fi]
+	so := scaleObs{Family: p.Open + "…" + p.Close, Closed: closed, Lang: lang.String(), Entry: entry}
+	for _, mult := range []int{1, 2, 4, 8} {
+		src := hs.Nest(p, base*mult, closed)
+		best := int64(1 << 62)
+		var st int64
+		for rep := 0; rep < 2; rep++ {
+			pr := hs.Cfg{Lang: lang, Keep: true}.New()
+			syntax.VerifCountersReset()
+			t0 := time.Now()
+			res := hs.Call(pr, entry, src)
+			if d := time.Since(t0).Nanoseconds(); d < best {
+				best = d
+			}
+			st = steps()
+			if res.Panic != "" {
+				so.Panic = "parse: " + res.Panic
+			}
+			if rep == 0 && res.Panic == "" {
+				for _, n := range res.Nodes {
+					if pm := hs.Post(n); len(pm) > 0 {
+						so.Panic = pm[0]
+						so.WithErr = res.Err != nil
+					}
+				}
+			}
+		}
+		so.Sizes = append(so.Sizes, len(src))
+		so.Steps = append(so.Steps, st)
+		so.Ns = append(so.Ns, best)
+	}
+	hx.Emit(so)
 }
 
 func main() {
@@ -386,6 +423,8 @@ func main() {
 		search(o)
 	case "scale":
 		scale(o)
+	case "scale1":
+		scale1(o)
 	case "one":
 		b, err := os.ReadFile(o.In)
 		if err != nil {
